@@ -65,7 +65,7 @@ def r1(cx, rec):
         rec.need(asc is True, 'dict-order', D, sb, 'dictionary keys are not sorted ascending by key (comparator orientation %s)' % asc)
         # vector comes from the map, the loop iterates the same vector after the sort, no reversal
         src = show(mirq.init_of(vec))
-        rec.need('HashMap' in src and 'iter(values)' in src, 'dict-source', D, sb, 'sorted vector is not the dictionary\'s entries: %s' % src[:80])
+        rec.need('HashMap' in src and ('iter(%s)' % C.params_of(D)[-1][0]) in src, 'dict-source', D, sb, 'sorted vector is not the dictionary\'s entries: %s' % src[:80])
         its = [bb for bb in mirq.real_calls(D) if D.expr_call(bb)[4].get('name') in ('into_iter', 'iter', 'rev') and mirq._ident(D.expr_call(bb)[2][0]) == mirq._ident(vec)]
         its = [bb for bb in its if bb != sb]
         rec.site(D, sb, 'sorted vector iterated at %d site(s) after the sort' % len([b for b in its if b in D.reach_from(sb)]))
@@ -88,7 +88,7 @@ def r2(cx, rec):
     table = {}
     for sb in M.switches():
         e, ts, o = M.cond(sb)
-        if access_path(e) == 'byte' and not M.bool_edges(sb):
+        if C.is_param(M, e) and not M.bool_edges(sb):
             for v, t in ts.items():
                 r = M.reach_from(t, cut_blocks=[sb])
                 for bi, si, x in mirq.agg_sites(M, r'Delimiter$'):
@@ -98,9 +98,9 @@ def r2(cx, rec):
     for sb in M.switches():
         e, ts, o = M.cond(sb)
         if e[0] == 'binop' and e[1] == 'Le':
-            if const_of(e[2]) and access_path(e[3]) == 'byte':
+            if const_of(e[2]) and C.is_param(M, e[3]):
                 lo = const_of(e[2])[0]
-            if const_of(e[3]) and access_path(e[2]) == 'byte':
+            if const_of(e[3]) and C.is_param(M, e[2]):
                 hi = const_of(e[3])[0]
     rec.site(M, None, 'decoder map %s digits %s..%s' % (table, lo, hi))
     rec.need(table == {'i': 'Int', 'l': 'List', 'd': 'Dict', 'e': 'End'}, 'decoder-map', M, None, 'decoder maps %s' % table)
@@ -202,12 +202,13 @@ def r3(cx, rec):
     ext = [bs.expr_call(bb) for bb in mirq.real_calls(bs) if bs.expr_call(bb)[4].get('name') == 'extend_from_slice']
     srcs = [show(e[2][1]) for e in ext]
     rec.site(bs, None, 'add_byte_str emits %s' % [s[-60:] for s in srcs])
-    rec.need(len(ext) == 3 and 'len(value)' in srcs[0].replace('core::slice::<impl [T]>::', '') and srcs[2] == 'value', 'bytestr-length', bs, None,
+    vp = C.params_of(bs)[-1][0]
+    rec.need(len(ext) == 3 and ('len(%s)' % vp) in srcs[0].replace('core::slice::<impl [T]>::', '') and srcs[2] == vp, 'bytestr-length', bs, None,
              'byte string is not emitted as len(value) ":" value: %s' % [s[-50:] for s in srcs])
     ai = enc(F, 'add_int')
     ext = [show(ai.expr_call(bb)[2][1]) for bb in mirq.real_calls(ai) if ai.expr_call(bb)[4].get('name') == 'extend_from_slice']
     rec.site(ai, None, 'add_int emits %s' % [s[-50:] for s in ext])
-    rec.need(len(ext) == 3 and 'to_string(value)' in ext[1], 'int-decimal', ai, None, 'integer is not emitted as i<to_string(value)>e')
+    rec.need(len(ext) == 3 and ('to_string(%s)' % C.params_of(ai)[-1][0]) in ext[1], 'int-decimal', ai, None, 'integer is not emitted as i<to_string(value)>e')
 
 
 @TABLE.rule('4', 'K7', 'the decoder\'s rejection guards are exactly the confirmed ones (shared with C16): nothing the encoder can emit is refused', floor=11)
